@@ -348,7 +348,7 @@ const numMutations = 11 + 6
 func runC02(env *Env) error {
 	env.Header = codecHeader + "Corr.Codec Corr.C02."
 	env.ShardSize = 150
-	env.Rule = "trees: every single structural mutation (11 replacement values, delete, alien member, case variant of the name, duplicate member, swap, added known field) at every position of every nesting level of a corpus of valid encodings of generated envelopes, plus PRNG double mutations and hand-written regression trees, every string up to length 4 (5) over {a, /, +} as media type in the four places where one is parsed; bytes: truncations at every offset, concatenations, byte flips. Each input goes to the 5 typed decoders, the TCP receive path and (as one text frame, in a process of its own because a panic there cannot be recovered) the WebSocket receive path; accepted results are re-encoded and re-decoded. Non-trivial: at least one decoder accepted the input or a mutation hit nesting level >= 2; distinct by input bytes."
+	env.Rule = "trees: every single structural mutation (11 replacement values, delete, alien member, case variant of the name, duplicate member, swap, added known field) at every position of every nesting level of a corpus of valid encodings of generated envelopes, plus PRNG double mutations and hand-written regression trees, every string up to length 4 (5) over {a, /, +} as media type in the four places where one is parsed; bytes: truncations at every offset, concatenations, byte flips; eight connections decoding never-seen media types at the same time (in a process of its own). Each input goes to the 5 typed decoders, the TCP receive path and (as one text frame, in a process of its own because a panic there cannot be recovered) the WebSocket receive path; accepted results are re-encoded and re-decoded. Non-trivial: at least one decoder accepted the input or a mutation hit nesting level >= 2; distinct by input bytes."
 	g := &gen{rng: env.Rng}
 	seen := map[string]bool{}
 	wsIso := &wsIsolated{}
@@ -400,6 +400,18 @@ func runC02(env *Env) error {
 	var rc c02Case
 	if ok, err := env.ReplayDesc(&rc); err != nil {
 		return err
+	} else if ok && rc.Mutation == "concurrent-decoders" {
+		for i := 0; i < 5; i++ {
+			survived, detail := runConcurrentDecoders()
+			c02Counter++
+			c := &c02Case{Input: rc.Input, Mutation: rc.Mutation, Panic: !survived}
+			if !survived {
+				c.Input += " - the process died: " + detail
+			}
+			c.term = coqfmt.App("CBytes", coqfmt.Nat(c02Counter), coqfmt.Bool(c.Panic), coqfmt.Bool(false))
+			env.Add(c.term, c)
+		}
+		return nil
 	} else if ok {
 		addBytes([]byte(rc.Input), rc.Mutation)
 		return nil
@@ -451,6 +463,20 @@ func runC02(env *Env) error {
 			}
 		}
 	})
+
+	// several connections decoding documents of never-seen media types at the same time, in a process of its own
+	for i := 0; i < env.Pick(2, 6); i++ {
+		survived, detail := runConcurrentDecoders()
+		c02Counter++
+		c := &c02Case{Input: "(8 TCP transports receive, at the same time, 400 messages each whose media types nobody has seen before)", Mutation: "concurrent-decoders", Panic: !survived}
+		if !survived {
+			c.Input += " - the process died: " + detail
+		}
+		c.term = coqfmt.App("CBytes", coqfmt.Nat(c02Counter), coqfmt.Bool(c.Panic), coqfmt.Bool(false))
+		env.Add(c.term, c)
+		env.Count("mutation=concurrent-decoders")
+		env.NonTrivial(fmt.Sprintf("concurrent-decoders-%d", i))
+	}
 
 	// corpus of valid encodings
 	ncorpus := env.Pick(14, 60)
